@@ -56,6 +56,10 @@ KEY_143 = "C08:offsetmap-bucket-boundary:sevm-array-slot-143-index-193"
 KEY_SWEEP = "C08:offsetmap-bucket-boundary:sevm-precomputed-constant-sweep"
 KEY_BIGOFF = "C08:offsetmap-offset-limit:sevm-array-constant-index-200000"
 KEY_CONCAT = "C08:generic-layout-masked-index-folded-into-concat:sevm-array-slot-%d"
+KEY_NEGGEN = "C08:generic-layout-negative-delta-zero-extended:sevm-array-hash-minus-1-plus-index"
+KEY_DOWN = "C08:generic-layout-unrecognised-hash-constant-plus-index:sevm-array-downward-bucket-crossing"
+KEY_NESTPACK = "C08:solidity-layout-nested-packed-keys-same-total-width-share-cell:sevm-string-string-mapping"
+KEY_TAXIOM = "C08:solidity-layout-transient-emptiness-axiom-constrains-symbolic-persistent-storage:sevm-mapping"
 KEY_PACKED = "C08:packed-key-concrete-preimage-decoded-as-scalar:sevm-bytes1-key"
 
 W = 1 << 256
@@ -155,9 +159,11 @@ def loc_kinds(loc, out):
         loc_kinds(loc[1], out)
     elif t == "off":
         out.add("offset-swapped" if loc[3] else "offset")
+        if loc[1][0] == "const" and loc[1][2] < 0 and expr_symbolic(loc[2]):
+            out.add("below-hash+index")
         loc_kinds(loc[1], out)
     elif t == "const":
-        out.add("push32-const" + ("+delta" if loc[2] else ""))
+        out.add("push32-const" + ("+delta" if loc[2] > 0 else "-delta" if loc[2] < 0 else ""))
     return out
 
 
@@ -384,6 +390,12 @@ class LocGen:
             d = ev_expr(loc[2], ())
             if d < (1 << 15):   # larger constant offsets: directed corpus (OffsetMap's documented reach is 2^16)
                 return ("const", loc[1], d)
+        if t == "off" and expr_symbolic(loc[2]) and loc[1][0] in ("map", "arr") and not loc_symbolic(loc[1]) and r.random() < 0.15 \
+                and self.known(loc[1]):
+            # the compiler's a[i - k]: (hash - k) + (i + k), with hash - k inside the bucket of the hash
+            k = r.choice([1, 1, 2, 3])
+            if (slot_of(loc[1], ()) & 0xFFFF) >= k:
+                return ("off", ("const", loc[1], -k), ("addc", loc[2], k), loc[3])
         if t == "map":
             return ("map", loc[1], self.render(loc[2]), loc[3])
         if t == "arr":
@@ -391,6 +403,17 @@ class LocGen:
         if t == "off":
             return ("off", self.render(loc[1]), loc[2], loc[3])
         return loc
+
+    def below(self, loc):
+        """a constant slot just below a recognisable hash on the spine of `loc` (element 2^256 - k of that array)"""
+        cur = loc
+        while cur[0] in ("off", "const"):
+            cur = cur[1]
+        if cur[0] in ("map", "arr") and not loc_symbolic(cur) and self.known(cur):
+            k = self.rng.choice([1, 1, 2, 5])
+            if (slot_of(cur, ()) & 0xFFFF) >= k:
+                return ("const", strip_const(cur), -k)
+        return None
 
     def known(self, loc):
         """every hash on the spine of `loc` is recognisable by reverse_lookup"""
@@ -459,6 +482,8 @@ def gen_program(rng, pool):
         if locs and rng.random() < 0.45:
             base = rng.choice(locs)
             loc = g.render(strip_const(base))
+            if rng.random() < 0.12:
+                loc = g.below(loc) or loc
         else:
             loc = g.location()
         locs.append(loc)
@@ -886,6 +911,54 @@ def multi_delta_case(node, deltas, name):
     return Prog(stmts, 1, name=name)
 
 
+def node_tag(node):
+    return ("arr%d" % node[1][1]) if node[0] == "arr" else ("map%d_%d" % (node[1][1], node[2][1]))
+
+
+def neg_const_case(node, ks, name, register=False):
+    """slots just below a hash constant are slots of their own: PUSH32 (hash - k) for several k and PUSH32 hash are written
+    with different values and read back (reverse_lookup returns a negative delta inside the bucket of the hash: the
+    location is element 2^256 - k of the array / `hash - k`, never the hash itself)"""
+    stmts = [("sload", node)] if register else []      # compute the hash at run time first: local registry
+    for i, k in enumerate(ks):
+        stmts.append(("sstore", ("const", node, -k), ("c", 0xA0 + i)))
+    stmts.append(("sstore", ("const", node, 0), ("c", 0xB0)))
+    stmts.append(("tstore", ("const", node, -ks[0]), ("c", 0xC1)))
+    stmts.append(("tstore", ("const", node, 0), ("c", 0xC0)))
+    stmts += [("sload", ("const", node, -k)) for k in ks]
+    stmts += [("sload", ("const", node, 0)), ("tload", ("const", node, -ks[0])), ("tload", ("const", node, 0)), ("sload", ("const", node, 1))]
+    return Prog(stmts, 1, name=name)
+
+
+def below_plus_index_case(node, k, name):
+    """`(hash - k) + i` (the compiler's a[i - k], e.g. a[n - 1] = (keccak(slot) - 1) + n): symbolic i, then on the path i == k + 2
+    the folded constants PUSH32 (hash + 2) / (hash + 3) / (hash - k); also i == 0 … through `hash + (i - k)` computed at run time"""
+    below = ("off", ("const", node, -k), ("a", 0), False)
+    return Prog([("sstore", below, ("c", 0x77)), ("sstore", ("const", node, 0), ("c", 0x78)),
+                 ("sload", ("off", ("off", node, ("a", 0), False), ("c", W - k), True)), ("sload", ("const", node, 0)),
+                 ("require_eq", ("a", 0), k + 2),
+                 ("sload", ("const", node, 2)), ("sload", ("const", node, 3)), ("sload", ("const", node, -k)), ("sload", below)], 1, name=name)
+
+
+def nested_packed_cases():
+    """mapping(string => mapping(string => uint)) at slot 0: m["a"]["\\0cd"] and m["a\\0"]["cd"] are different slots"""
+    nm = lambda k1, b1, k2, b2: ("map", k2, ("map", k1, ("lit", 0), b1), b2)
+    A, B = nm(("c", 0x61), 1, ("c", 0x006364), 3), nm(("c", 0x6100), 2, ("c", 0x6364), 2)
+    As, Bs = nm(("a", 0), 1, ("a", 1), 3), nm(("a", 0), 2, ("a", 1), 2)
+    return [Prog([("sstore", A, ("c", 0x11)), ("sload", B), ("sload", A), ("sstore", B, ("c", 0x22)), ("sload", A), ("sload", B)], 1,
+                 name="nested-packed-keys-concrete"),
+            Prog([("sstore", As, ("c", 0x11)), ("sload", Bs), ("sload", As)], 2, name="nested-packed-keys-symbolic")]
+
+
+def symbolic_directed():
+    """(prog, inputs, expected key) run with symbolic persistent storage (solidity layout)"""
+    m = lambda k: ("map", k, ("lit", 2), 32)
+    return [(Prog([("tload", m(("a", 0))), ("sload", m(("a", 0)))], 1, name="symbolic-storage-tload-then-sload-mapping"), [(1,), (7,)], KEY_TAXIOM),
+            (Prog([("sload", m(("a", 0))), ("tload", m(("c", 1))), ("sload", m(("c", 1)))], 1, name="symbolic-storage-sload-tload-sload-mapping"), [(1,), (2,)], KEY_TAXIOM),
+            (Prog([("tload", ("lit", 3)), ("sload", ("lit", 3)), ("tstore", ("lit", 3), ("c", 5)), ("sload", ("lit", 3)), ("tload", ("lit", 3))], 1,
+                  name="symbolic-storage-tload-then-sload-scalar"), [(1,)], None)]
+
+
 def three_ways_cases():
     out = []
     # mapping element with a struct-member offset: runtime hash + 1, 1 + runtime hash, PUSH32 (hash + 1)
@@ -932,6 +1005,19 @@ def core_directed():
     for p in three_ways_cases():
         out.append((p, None))
     out.append((packed_concrete_case(), KEY_PACKED))
+    # negative deltas: constants just below a hash (table constant, locally registered hash, mapping hash)
+    a2, a300, m10 = ("arr", ("lit", 2)), ("arr", ("lit", 300)), ("map", ("c", 1), ("lit", 0), 32)
+    out.append((neg_const_case(a2, [1, 2, 8], "below-hash-constants-array-slot-2"), None))
+    out.append((neg_const_case(m10, [1, 3], "below-hash-constants-mapping-1-0"), None))
+    out.append((neg_const_case(a300, [1, 5], "below-hash-constants-array-slot-300-registered", register=True), None))
+    lo2 = slot_of(a2, ()) & 0xFFFF
+    out.append((neg_const_case(a2, [lo2, lo2 + 1, lo2 + 2], "below-hash-constants-array-slot-2-bucket-start"), None))
+    out.append((below_plus_index_case(a2, 1, "hash-minus-1-plus-index-array-slot-2"), KEY_NEGGEN + "@generic"))
+    out.append((below_plus_index_case(m10, 2, "hash-minus-2-plus-index-mapping-1-0"), KEY_NEGGEN + "@generic"))
+    out.append((Prog([("sstore", ("off", ("const", a2, -(lo2 + 1)), ("a", 0), False), ("c", 0x77)), ("require_eq", ("a", 0), lo2 + 3),
+                      ("sload", ("const", a2, 2))], 1, name="hash-minus-bucket-crossing-plus-index-array-slot-2"), KEY_DOWN + "@generic"))
+    for p in nested_packed_cases():
+        out.append((p, KEY_NESTPACK + "@solidity"))
     # hash constant with zero low bits + masked index: the sum reaches decode as Concat(hash[255:2], index[1:0])
     s0 = next(s for s in range(1, 100) if slot_of(("arr", ("lit", s)), ()) & 3 == 0)
     arr0 = ("arr", ("lit", s0))
@@ -981,6 +1067,14 @@ def directed_programs(ctx, variant, have=()):
         ds = sorted(set(ctx.rng.sample(ok, min(len(ok), 6)))) if ok else []
         if ds:
             out.append((multi_delta_case(node, ds, f"deltas-{tag}-" + "-".join(map(str, ds))), None))
+    # table constants minus small offsets (inside the bucket of the hash and across its lower boundary)
+    for node in ctx.rng.sample(nodes, ctx.scale(6, 120)):
+        lo = slot_of(node, ()) & 0xFFFF
+        ks = sorted(set(ctx.rng.sample([1, 2, 3, 4, 7, 8, 16, 31, 32, 255, 256, max(lo, 1), lo + 1], 4)))
+        out.append((neg_const_case(node, ks, f"below-{node_tag(node)}-" + "-".join(map(str, ks))), None))
+        if lo >= 4 and ctx.rng.random() < 0.5:
+            k = ctx.rng.choice([1, 2, 3])
+            out.append((below_plus_index_case(node, k, f"below-plus-index-{node_tag(node)}-{k}"), KEY_NEGGEN + "@generic"))
     for node in chosen:
         lo = slot_of(node, ()) & 0xFFFF
         cross = 0x10000 - lo
@@ -1132,6 +1226,19 @@ def direct_decode_cases(ctx, variant):
             for t in terms:
                 out.append((layout, sevm, ex, t, vals))
     return out
+
+
+class _Fixed:
+    """rng stand-in: every initial value is `v`"""
+
+    def __init__(self, v):
+        self.v = v
+
+    def choice(self, xs):
+        return self.v
+
+    def randrange(self, *a):
+        return self.v
 
 
 class _ValsEval:
@@ -1294,6 +1401,11 @@ def correspond(ctx):
             stuck = [p.kind for p in sr.paths if p.kind.startswith("stuck:")]
             if prog.name:
                 ctx.count("directed:" + ("mismatch" if mism else "agree"))
+            if expect:
+                ekey, _, elay = expect.partition("@")
+                expect = ekey if (not elay or elay == layout) else None
+            elif not prog.name and layout == "generic" and "below-hash+index" in prog.kinds():
+                expect = KEY_NEGGEN     # generated (hash - k) + i in the generic layout: the known zero-extension finding
             if mism:
                 info = mism[0]
                 if expect and (variant != "fixed" or not expect.startswith(KEY_OM)) and info["kind"] == "loaded-value":
@@ -1328,7 +1440,17 @@ def correspond(ctx):
                         "sload(keccak(0x01 ‖ 4)) returns 0 (EVM 0x66): a hash whose whole preimage is concrete comes back from reverse_lookup as "
                         "f_sha3_264(<constant>), which decode does not split (it expects a Concat), so the location becomes the scalar cell at "
                         "the literal hash instead of (4, key, 0)",
-            KEY_CONCAT % 0: "",
+            KEY_NEGGEN: "generic layout: sstore((keccak(2) - 1) + i, 0x77) — the compiler's a[i - 1] — then on the path i == 3 "
+                        "sload(PUSH32 (keccak(2) + 2)) returns 0 (EVM 0x77): reverse_lookup gives keccak(2) + (2^256 - 1) and GenericStorage.add_all "
+                        f"zero-extends that 256-bit negative delta to the 513-bit decoded width, so (hash - 1) + i never wraps back to hash + (i - 1) "
+                        f"({len(lst)} program/layout pairs; the solidity layout adds in 256 bits and agrees)",
+            KEY_DOWN: "generic layout: (keccak(2) - k) + i with hash - k below the 2^16 bucket of the hash (not recognised by OffsetMap) is kept as the "
+                      "raw 256-bit slot `constant + i`, while the same element written hash + j is decoded structurally: sload(PUSH32 (hash + 2)) "
+                      "after sstore((hash - k) + i, 0x77) on the path i == k + 2 returns 0 (EVM 0x77); the solidity layout is stuck on it (fail-safe)",
+            KEY_NESTPACK: "solidity layout: StorageData cells are keyed by (slot, num_keys, total key bits) and indexed by the concatenation of the "
+                          "keys: in mapping(string => mapping(string => uint)) at slot 0, m['a']['\\0cd'] (key widths 8, 24) and m['a\\0']['cd'] "
+                          "(16, 16) get the same cell (0, 4, 544) and the same concatenated key, so a store to one is read through the other "
+                          "(EVM: different slots, reads 0)",
             KEY_BIGOFF: "PUSH32 (keccak(1) + 200000): constant offsets ≥ 2^17 (beyond the reach of OffsetMap, also with the previous-bucket probe of the proposed fix) are not "
                         "recognised as an element of the array: the load returns 0 (EVM 0x77)",
         }.get(key, key)
@@ -1376,12 +1498,30 @@ def correspond(ctx):
                 ctx.count("symbolic-storage:cell-conflict")
             bi = sbatch.add(D, scn, [inp], pre_storage={(D.MAIN, k): v for k, v in flat.items() if v})
             sym_jobs.append((prog, sr, inp, bi))
+    sdirected = {}
+    for prog, arglists, expect in symbolic_directed():
+        scn = scenario_of(prog)
+        sr = symbolic_run_with_storage(D, scn, "solidity")
+        ctx.count("symbolic-storage:directed")
+        sdirected[prog.name] = expect
+        for a in arglists:
+            inp = mk_inputs(D, a)
+            flat, uf, _ = initial_storage_for(D, prog, inp.args, _Fixed(0xAB))     # every touched slot initially 0xab
+            inp.initial_uf = uf
+            bi = sbatch.add(D, scn, [inp], pre_storage={(D.MAIN, k): v for k, v in flat.items()})
+            sym_jobs.append((prog, sr, inp, bi))
     sconcs = sbatch.run(ctx, D)
     for prog, sr, inp, bi in sym_jobs:
         mism = []
         compare_outputs(ctx, D, prog, "solidity+symbolic-storage", sr, [inp], sconcs[bi], mism.append)
         ctx.count("symbolic-storage:" + ("mismatch" if mism else "agree"))
-        if mism:
+        if mism and sdirected.get(prog.name) == KEY_TAXIOM and mism[0]["kind"] == "uncovered":
+            ctx.violation(KEY_TAXIOM, f"[{prog.name}] solidity layout, symbolic persistent storage: TLOAD(m[k]) appends the emptiness axiom "
+                          "Select(storage_<addr>_<slot>_<nk>_<sz>_00, k) == 0 for the *transient* cell, but SolidityStorage.empty gives the transient and the "
+                          "persistent cell the same array name, so the axiom also forces the unconstrained initial persistent value of m[k] to 0: "
+                          f"an initial storage with m[k] = 0xab is covered by no path (args {[hex(a) for a in inp.args]}; EVM returns (0, 0xab))",
+                          replay_body(prog, "solidity", dict(mism[0], symbolic_storage=True)))
+        elif mism:
             info = mism[0]
             ctx.violation(f"C08|symbolic-storage|{info['kind']}|kinds:{','.join(sorted(prog.kinds()))}",
                           f"[symbolic storage] with an arbitrary initial storage the loaded values differ from the EVM: "
